@@ -237,13 +237,28 @@ def c19_c(ctx: Ctx):
     lf = ctx.fn(LOC)
 
     def _while_walks(g):
+        """while loops that move a variable to its parent directory until dirname(v) == v: (loop, variable)"""
         res = []
         for w in [n for n in body_nodes(g) if isinstance(n, ast.While)]:
-            for (cmpn, b) in common.pfind("os.path.dirname(V) == V", w) + [(x, {"V": x.comparators[0]}) for x in ast.walk(w) if isinstance(x, ast.Compare) and len(x.ops) == 1
-                                                                          and isinstance(x.left, ast.NamedExpr) and common.pmatch("os.path.dirname(V)", x.left.value) is not None
-                                                                          and canon(common.pmatch("os.path.dirname(V)", x.left.value)["V"]) == canon(x.comparators[0])]:
-                if isinstance(b["V"], ast.Name):
-                    res.append((w, b["V"].id))
+            found = None
+            for x in ast.walk(w):
+                if not (isinstance(x, ast.Compare) and len(x.ops) == 1 and isinstance(x.ops[0], (ast.Eq, ast.NotEq))):
+                    continue
+                for a, b in ((x.left, x.comparators[0]), (x.comparators[0], x.left)):
+                    if not isinstance(b, ast.Name):
+                        continue
+                    e = a.value if isinstance(a, ast.NamedExpr) else a
+                    if isinstance(e, ast.Name):
+                        # a local bound (inside the loop) to dirname(b)
+                        ds = [n.value for n in ast.walk(w) if isinstance(n, ast.Assign) and any(isinstance(t, ast.Name) and t.id == e.id for t in n.targets)]
+                        ds += [n.value for n in ast.walk(w) if isinstance(n, ast.NamedExpr) and n.target.id == e.id]
+                        if len(ds) == 1:
+                            e = ds[0]
+                    m = common.pmatch("os.path.dirname(V)", e)
+                    if m is not None and canon(m["V"]) == b.id:
+                        found = b.id
+            if found:
+                res.append((w, found))
         return res
 
     def _outer_defs(g, w, v):
@@ -368,7 +383,7 @@ def c19_c(ctx: Ctx):
         var = [st[1] for st in sites if st[0] is first][0]
         rets = [n for n in ast.walk(first) if isinstance(n, ast.Return)]
         up = [n for n in ast.walk(first) if isinstance(n, ast.Call) and common.ext_name(ctx, f, n) == "os.path.dirname"] or isinstance(first, ast.For)
-        tests = [n for n in ast.walk(first) if isinstance(n, ast.If) and f"os.path.isfile(_get_project_config_fn({var}))" in canon(n.test)]
+        tests = [n for n in ast.walk(first) if isinstance(n, (ast.If, ast.While)) and f"os.path.isfile(_get_project_config_fn({var}))" in canon(n.test)]
         if rets and up and tests and canon(rets[0].value) == var:
             out.append(ctx.ok(R, f, first, "upward search: returns the first directory (starting at the query path) that holds a config file, moving one parent at a time"))
         else:
